@@ -149,6 +149,9 @@ class YosysBehavioralRTLIRToVVisitorL1( BehavioralRTLIRToVVisitorL1 ):
       value_str = s.visit( node.value )
       cur_nbits = node.value.Type.get_dtype().get_length()
       if cur_nbits == nbits:
+        # Bits4( a | b ) & c: the operand of the (dropped) cast keeps its brackets
+        if isinstance( node.value, ( bir.IfExp, bir.UnaryOp, bir.BinOp, bir.Compare ) ):
+          return f"( {value_str} )"
         return value_str
       elif cur_nbits > nbits:
         msb = nbits-1
